@@ -189,6 +189,14 @@ def c18_4(ctx):
             ctx.fail(f, loops[0], 'a same-type wrapper deeper in the chain is not spliced out')
         elif not any(isinstance(a, ast.Assign) and U(a.targets[0]) == 'f' and N(a.value) == 'f.function' for a in else_of(inner[0])):
             ctx.fail(f, loops[0], 'the walk down the chain does not advance')
+    # re-wrapping a decorator of the same type found down the chain: ITS parameters are the base, those given now override them
+    same = [x for x in ast.walk(f.node) if isinstance(x, ast.If) and N(x.test) == NS('type(f.function) == type(self)')]
+    ctx.count(1)
+    if same:
+        seq = [' '.join(U(b).split()) for b in same[0].body]
+        if seq[:2] != ['kw = f.function._kwargs', 'kw.update(kwargs)']:
+            ctx.fail(f, same[0], 'the parameters of the replaced same-type decorator and the new ones are merged as %s: expected kw = f.function._kwargs followed by kw.update(kwargs), i.e. the parameters given NOW win' % seq[:2],
+                     witness='try_zero(kwargs_support(try_none(f))) must fall back to 0, not None')
     ctx.count(1)
     if not any(isinstance(x, ast.Assign) and N(x.targets[0]) == 'self[_spec]' and const(x.value, 'X') is None for x in f.body):
         ctx.fail(f, f.node, 'wrapper.__init__ no longer resets the cached argument specification (self[_spec] = None): a subclass without its own __init__ (cache_func) then has no spec entry and getargspec / getargs of the decorated function fail or come back empty',
@@ -272,7 +280,8 @@ def c18_7(ctx):
             ctx.fail(kf, rr[-1], 'the cache key is a hash value (`%s`): distinct argument sets whose hashes collide share one entry, so the second call returns the first call\'s result without evaluating f' % U(v),
                      witness='f(-1) then f(-2): hash(-1) == hash(-2)')
         else:
-            raise AnalysisError('unrecognised cache key construction: %s' % U(v))
+            ctx.fail(kf, rr[-1], 'the cache key is `%s`, expected _prehash((args, kwargs)): "once per argument combination" needs a key that is the same for f(a=1, b=2) and f(b=2, a=1) (the dict branch of _prehash sorts the items) and structural for nested lists/dicts' % U(v)[:120],
+                     witness='f(a=1, b=2); f(b=2, a=1)')
     p = ctx.repo.fn('_cache:_prehash')
     ctx.count(1, p.where())
     src = U(p.node)
